@@ -6,7 +6,7 @@ prop=$1; dir=$2
 export GOFLAGS=-mod=mod GOPROXY=off GOSUMDB=off
 W=$(mktemp -d /dev/shm/seedwt-XXXXXX); rmdir $W
 git -C /repo worktree add -q --detach $W HEAD || exit 3
-cleanup() { git -C /repo worktree remove --force $W 2>/dev/null; rm -rf $W; }
+cleanup() { rm -f /dev/shm/seed-*.$$.log; git -C /repo worktree remove --force $W 2>/dev/null; rm -rf $W; }
 demo=$(ls $dir/*_test.go 2>/dev/null | head -1)
 res_clean=na; res_mut=na
 if [ -n "$demo" ]; then
@@ -19,20 +19,20 @@ if [ -n "$demo" ]; then
   esac
   name=$(grep -o '^func Test[A-Za-z0-9_]*' $demo | head -1 | sed 's/func //')
   cp $demo $W/$pd/zz_seed_demo_test.go
-  if (cd $W && go test -vet=off -count=1 -run "^$name\$" ./$pd >/dev/shm/seed-clean.log 2>&1); then res_clean=pass; else res_clean=FAIL; fi
+  if (cd $W && go test -vet=off -count=1 -run "^$name\$" ./$pd >/dev/shm/seed-clean.$$.log 2>&1); then res_clean=pass; else res_clean=FAIL; fi
 fi
-if ! git -C $W apply $dir/patch.diff 2>/dev/shm/seed-apply.log; then echo "SEED $prop $dir: patch does not apply: $(head -2 /dev/shm/seed-apply.log)"; cleanup; exit 3; fi
+if ! git -C $W apply $dir/patch.diff 2>/dev/shm/seed-apply.$$.log; then echo "SEED $prop $dir: patch does not apply: $(head -2 /dev/shm/seed-apply.$$.log)"; cleanup; exit 3; fi
 if [ -n "$demo" ]; then
-  if (cd $W && go test -vet=off -count=1 -run "^$name\$" ./$pd >/dev/shm/seed-mut.log 2>&1); then res_mut=PASS; else res_mut=fail; fi
+  if (cd $W && go test -vet=off -count=1 -run "^$name\$" ./$pd >/dev/shm/seed-mut.$$.log 2>&1); then res_mut=PASS; else res_mut=fail; fi
   rm -f $W/$pd/zz_seed_demo_test.go
 fi
 if [ "$SKIP_SUITE" = 1 ]; then suite=skipped; else
-if (cd $W && go test -vet=off -count=1 ./... >/dev/shm/seed-suite.log 2>&1); then suite=pass; else suite=FAIL; fi; fi
-VERIF_REPO=$W "$(dirname "$(readlink -f "$0")")"/check $prop quick > /dev/shm/seed-check.log 2>&1; rc=$?
-oracle=$(grep -m1 -o 'oracle=[^ ]*' /dev/shm/seed-check.log)
+if (cd $W && go test -vet=off -count=1 ./... >/dev/shm/seed-suite.$$.log 2>&1); then suite=pass; else suite=FAIL; fi; fi
+VERIF_REPO=$W "$(dirname "$(readlink -f "$0")")"/check $prop quick > /dev/shm/seed-check.$$.log 2>&1; rc=$?
+oracle=$(grep -m1 -o 'oracle=[^ ]*' /dev/shm/seed-check.$$.log)
 echo "SEED $prop $(basename $dir): demo-clean=$res_clean demo-mutated=$res_mut suite=$suite check-exit=$rc $oracle"
-grep -m2 -A1 '^VIOLATION' /dev/shm/seed-check.log | cut -c1-300
-[ $rc = 2 ] && tail -5 /dev/shm/seed-check.log
+grep -m2 -A1 '^VIOLATION' /dev/shm/seed-check.$$.log | cut -c1-300
+[ $rc = 2 ] && tail -5 /dev/shm/seed-check.$$.log
 if [ -n "$SAVE" ]; then
   d=/verif/seeded/$SAVE; mkdir -p $d
   cp $dir/patch.diff $d/; [ -n "$demo" ] && cp $demo $d/demo_test.go; [ -f $dir/README.md ] && cp $dir/README.md $d/README.md
